@@ -1,16 +1,21 @@
 # Build of the Coq development and of the extracted model driver.
-COQDIR=coq
-.PHONY: all coq extract clean
-all: coq extract
+.PHONY: all model proofs extract clean
+all: extract proofs
 coq/Records.v: coq/gen_records.py
 	cd coq && python3 gen_records.py Records.v
-coq/Makefile: coq/_CoqProject coq/Records.v
+coq/Proofs/Frames.v: coq/gen_frames.py coq/gen_records.py
+	cd coq && python3 gen_frames.py Proofs/Frames.v
+coq/Makefile: coq/_CoqProject coq/Records.v coq/Proofs/Frames.v
 	cd coq && coq_makefile -f _CoqProject -o Makefile
-coq: coq/Makefile coq/Records.v
+# the executable model only (no proofs): what the correspondence check runs
+model: coq/Makefile
+	$(MAKE) -C coq -j16 --no-print-directory Algos.vo
+proofs: coq/Makefile
 	$(MAKE) -C coq -j16 --no-print-directory
-extract: coq
+coq/extract/btmodel: model coq/extract/Extract.v coq/extract/driver.ml coq/Algos.vo
 	cd coq/extract && coqc -Q .. BT Extract.v > /dev/null && \
 	ocamlfind ocamlopt -rectypes -thread -package coq-core.kernel -linkpkg -w -a model.mli model.ml driver.ml -o btmodel
+extract: coq/extract/btmodel
 clean:
 	-$(MAKE) -C coq clean
 	rm -f coq/Makefile coq/Makefile.conf coq/extract/model.ml coq/extract/model.mli coq/extract/btmodel coq/extract/*.cm* coq/extract/*.o coq/extract/*.vo*
